@@ -124,7 +124,7 @@ pub fn run(ctx: &Ctx, rep: &mut Report) {
         }
         for i in 0..ctx.budget(3000, 60_000) {
             let bits = gen::gen_message(b, &mut r);
-            let via = [Via::Raw, Via::Armor, Via::Line][(i % 3) as usize];
+            let via = if i % 7 == 6 { Via::Group } else { [Via::Raw, Via::Armor, Via::Line][(i % 3) as usize] };
             let v = gen::run_message_mask(rep, PID, mask, &bits, via, b.name);
             rep.class(format!("{}|{:?}|{}", b.name, via, v.outcome));
             rep.count("legal-branch");
